@@ -842,9 +842,13 @@ fn execute_inner(h: &History) -> Result<HistoryOutcome, String> {
                 let res = guard(|| {
                     let policy = project.policy(Some(&g.module), Some(&g.validator), &path);
                     let address = project.address(Some(&g.module), Some(&g.validator), None, &path, false);
+                    let mainnet = project.address(Some(&g.module), Some(&g.validator), None, &path, true);
                     (
                         policy.map(|p| p.to_string()).map_err(|e| format!("{e}")),
-                        address.map(|a| hex::encode(a.to_vec())).map_err(|e| format!("{e}")),
+                        match (address, mainnet) {
+                            (Ok(a), Ok(m)) => Ok(format!("{}|{}", hex::encode(a.to_vec()), hex::encode(m.to_vec()))),
+                            (Err(e), _) | (_, Err(e)) => Err(format!("{e}")),
+                        },
                     )
                 });
                 match res {
@@ -867,8 +871,9 @@ fn execute_inner(h: &History) -> Result<HistoryOutcome, String> {
                                 .unwrap_or_default();
                             match (&policy, &address) {
                                 (Ok(p), Ok(a)) => {
-                                    // testnet script address without delegation: header 0x70 ‖ hash
-                                    if p != &hash || a != &format!("70{hash}") {
+                                    // script address without delegation: header 0x70 (testnet) / 0x71
+                                    // (mainnet) ‖ hash
+                                    if p != &hash || a != &format!("70{hash}|71{hash}") {
                                         out.violations.push((
                                             "address-hash-mismatch".into(),
                                             format!("{}.{}: policy {p}, address {a}, published hash {hash}", g.module, g.validator),
